@@ -406,3 +406,61 @@ Proof. intros l. apply Permutation_refl. Qed.
 
 Lemma perm_oracle_rev : perm_oracle (@rev N).
 Proof. intros l. apply Permutation_sym, Permutation_rev. Qed.
+
+(* ---- histories: a selection depends on the current index column only -------------------------- *)
+
+Section HistoryProofs.
+  Variable matches : N -> N -> bool.
+  Variable ord : list N -> list N.
+
+  Lemma hstep_state t o :
+    fst (hstep matches ord t o) = set_idx t (edit_col (s_idx t) o).
+  Proof.
+    assert (Hid : set_idx t (s_idx t) = t) by (now destruct t).
+    destruct o as [q|i v|nm cnt off v|vals]; cbn [hstep edit_col].
+    - now rewrite Hid.
+    - unfold hset_cell, slen. destruct (wrap1 _ i); cbn [fst]; auto.
+    - rewrite name_index_spec. destruct (scan_name _ _ _ _) as [i|e]; cbn [fst]; auto.
+      unfold hset_cell, slen. destruct (wrap1 _ i); cbn [fst]; auto.
+    - unfold slen. destruct (Nat.eqb _ _); cbn [fst]; auto.
+  Qed.
+
+  Lemma set_idx_twice t c1 c2 : set_idx (set_idx t c1) c2 = set_idx t c2.
+  Proof. reflexivity. Qed.
+
+  (* after any history the table is the original one with the edited index column *)
+  Theorem hfinal_edited ops : forall t,
+    hfinal matches ord t ops = set_idx t (edited (s_idx t) ops).
+  Proof.
+    unfold hfinal, edited. induction ops as [|o rest IH]; intros t; cbn [fold_left].
+    - now destruct t.
+    - rewrite IH, hstep_state. reflexivity.
+  Qed.
+
+  Lemma hrun_app ops1 : forall t ops2,
+    hrun matches ord t (ops1 ++ ops2) = hrun matches ord t ops1 ++ hrun matches ord (hfinal matches ord t ops1) ops2.
+  Proof.
+    unfold hfinal. induction ops1 as [|o rest IH]; intros t ops2; cbn [app hrun fold_left]; auto.
+    now rewrite IH.
+  Qed.
+
+  (* no hidden state: whatever was selected or edited before, a selection
+     shows the three views of the table whose index column is the edited one *)
+  Theorem select_after_history t ops q :
+    let t' := set_idx t (edited (s_idx t) ops) in
+    hrun matches ord t (ops ++ [HSel q]) =
+    hrun matches ord t ops ++
+    [HViews (rows_positions matches ord t' q) (indices matches ord t' q) (mask matches ord t' q)].
+  Proof. cbn zeta. rewrite hrun_app, hfinal_edited. reflexivity. Qed.
+
+  (* selections leave the table alone *)
+  Lemma sel_no_effect t q : fst (hstep matches ord t (HSel q)) = t.
+  Proof. reflexivity. Qed.
+End HistoryProofs.
+
+Theorem reselect_spec matches ord t ops s :
+  perm_oracle ord ->
+  let t' := set_idx t (edited (s_idx t) ops) in
+  names_plainb matches (s_idx t') = true -> sel_okb t' s = true ->
+  indices matches ord (hfinal matches ord t ops) (QOne s) = sel_spec matches t' s.
+Proof. intros Ho t' Hp Hk. rewrite hfinal_edited. now apply indices_refines. Qed.
